@@ -34,7 +34,7 @@ ASSUMPTIONS = [
     'clean_before_reuse: whenever the publisher is below its limit the partition the log rotates into next is zero; the driver never zeroes the '
     'active partition nor a partition the subscriber has not left',
     'the application commits or aborts its one BufferClaim exactly once and publishes nothing else while the claim is open; lengths are >= 0',
-    'the history stays out of the last term of the position space (term count < 2^31 - 1)',
+    'the publication limit is never more than half a term beyond the end of the position space (C04 limit_ok); the last term of the position space is included',
 ]
 PER_CASE_TIMEOUT = 5.0
 CHUNK = 8
@@ -47,7 +47,7 @@ MINI = -2**31
 I64MAX = 2**63 - 1
 I64MIN = -2**63
 SESSION, STREAM = 11, 22
-MAXN = 2**31 - 2          # largest term count a judged history may reach (env_ok: count < 2^31 - 1 before every operation)
+MAXN = 2**31 - 1          # the last term of the position space (the contract includes it)
 
 GEOMS = [(1024, 64), (1024, 96), (1024, 128), (4096, 64), (4096, 128), (4096, 512), (65536, 1408), (65536, 4096), (65536, 64)]
 
@@ -149,8 +149,12 @@ class Tracker:
             self.st['accepted'] += 1
             return 'ok'
         # the message does not fit: padding to the end of the term, rotation
-        if self.n >= MAXI:                       # last term of the position space (malformed histories only)
-            self.off += required(ln, self.mpl)
+        if self.n >= MAXI:                       # last term of the position space: padding, no rotation, MaxPositionExceeded;
+            if self.off < self.tlen:             # the publication is at the end of the position space from now on
+                T.add(self.tlen - self.off, 'pad')
+                self.dirty[self.n % 3] = True
+            self.off = self.tlen
+            self.st['lastterm_trips'] = self.st.get('lastterm_trips', 0) + 1
             return 'maxpos'
         if self.off < self.tlen:
             T.add(self.tlen - self.off, 'pad')
@@ -204,8 +208,6 @@ class Tracker:
         return True
 
     def env_ok(self, op):
-        if not self.n < MAXI:
-            return False
         t = op[0]
         if t in ('o', 'c'):
             ln = op[2] if t == 'o' else op[1]
@@ -215,7 +217,7 @@ class Tracker:
         if t in ('m', 'a'):
             return self.open
         if t == 'l':
-            return op[1] <= self.sp + self.tlen
+            return op[1] <= self.sp + self.tlen and op[1] <= self.tlen * 2**31 + self.tlen // 2
         if t == 'z':
             return self.clean_allowed(op[1])
         return t in ('p', 'n', 'x')
@@ -335,11 +337,11 @@ def pick_len(rng, t, claim=False):
 
 
 def pick_limit(rng, t, lastlen=64):
-    w = t.sp + t.tlen
+    w = min(t.sp + t.tlen, t.tlen * 2**31 + t.tlen // 2)
     p = t.pos()
     cands = [(w, 10), (t.sp + t.tlen // 2, 2), (w - 32, 2), (p + 32, 2), (p, 1), (p + required(lastlen, t.mpl), 2), (p + required(lastlen, t.mpl) - 32, 1),
              (t.sp + 32 * rng.randrange(0, t.tlen // 32 + 1), 3), (t.sp + rng.randrange(0, t.tlen + 1), 1), (rng.choice([0, 1, 32, -1, I64MIN]), 1)]
-    cands = [(v, wgt) for v, wgt in cands if v <= w]
+    cands = [(v, wgt) for v, wgt in cands if v <= w and v <= t.tlen * 2**31 + t.tlen // 2]
     return rng.choices([c[0] for c in cands], [c[1] for c in cands])[0]
 
 
@@ -404,8 +406,6 @@ def gen_history(rng, pubkind, malformed=False, last_terms=False, geom=None, nops
                     emit(['z', i])
                 else:
                     return do_poll()                       # the subscriber still sits in that partition
-            if t.outcome(ln, claim) == 'trip' and t.n + 1 > MAXN and judged:
-                return do_poll()                           # would enter the last term of the position space
         r = emit(op)
         lastlen = ln
         if not claim:
@@ -444,7 +444,7 @@ def gen_history(rng, pubkind, malformed=False, last_terms=False, geom=None, nops
 
     # most histories open the window and connect first
     if rng.random() < 0.95:
-        emit(['l', t.sp + tlen if rng.random() < 0.75 else pick_limit(rng, t)])
+        emit(['l', min(t.sp + tlen, tlen * 2**31 + tlen // 2) if rng.random() < 0.75 else pick_limit(rng, t)])
     if rng.random() < 0.7:
         emit(['n', 1])
     phase = rng.choice(['lag', 'drain', 'mixed', 'mixed'])
@@ -566,7 +566,7 @@ def generate(rng, tier):
     for i in range(n):
         pubkind = 's' if i % 2 == 0 else 'x'
         malformed = (i % 10 == 9)
-        case, t, drained = gen_history(rng, pubkind, malformed=malformed, last_terms=(malformed and i % 20 == 19))
+        case, t, drained = gen_history(rng, pubkind, malformed=malformed, last_terms=(i % 20 == 19 or i % 8 in (3, 4)))
         cases.append(case)
         for key, v in t.st.items():
             agg[key] = agg.get(key, 0) + v
